@@ -71,7 +71,7 @@ def post_plan(seed, tier, jobs, results):
                 {
                     "world": worlds[(ci // chunk + 2) % nworlds],
                     "fn": "userland_dispatch",
-                    "payload": {"seed": "%s/c16u/%d" % (seed, ci), "reps": 6, "containers": 40 if tier == "quick" else 160, "subsets": 60 if tier == "quick" else 400},
+                    "payload": {"seed": "%s/c16u/%d" % (seed, ci), "reps": 6, "containers": 40 if tier == "quick" else 160, "subsets": 60 if tier == "quick" else 240},
                     "timeout": 900,
                 }
             )
@@ -777,6 +777,8 @@ def ref_sub(a, b):
 def _isolation_checks():
     """Rules registered for one key / one interpretation object / one interpretation class answer
     there and nowhere else; stacked registrations all take effect and return the plain function."""
+    import typing
+
     import funsor
     from funsor.interpretations import DispatchedInterpretation, StatefulInterpretation
     from funsor.registry import KeyedRegistry
@@ -830,6 +832,32 @@ def _isolation_checks():
             return bad("stacked registrations: arguments %r do not reach the rule" % (args,))
     if reg2.dispatch(K1, 2.5) is stacked:
         return bad("stacked registrations: a float reached a rule registered for int and str")
+    # registering again under the same pattern, written out a second time, replaces the rule
+    from funsor.typing import GenericTypeMeta
+
+    class Gen2(metaclass=GenericTypeMeta):
+        pass
+
+    def writes():
+        return [
+            (Gen2[object, str],),
+            (funsor.terms.Binary[funsor.ops.AddOp, object, Variable],),
+            (typing.Tuple[object, int],),
+            (Gen2[int], typing.FrozenSet[str]),
+        ]
+
+    for i in range(len(writes())):
+        reg3 = KeyedRegistry(default=lambda *a: None)
+        first, second = writes()[i], writes()[i]
+        reg3.register(K1, *first)(lambda *a: "old")
+        reg3.register(K1, *second)(lambda *a: "new")
+        disp = reg3.registry[K1]
+        rules = [fn for sig, fn in disp.funcs.items() if fn is not disp.default]
+        if len(rules) != 1 or rules[0]() != "new":
+            return bad("a rule registered again under the same pattern %r (written out a second time) did not replace the first: %d rules are registered for it" % (first, len(rules)))
+        for a, b in zip(first, second):
+            if isinstance(a, GenericTypeMeta) and a is not b:
+                return bad("the same parametrised pattern written twice gives two different classes: %r" % (a,))
     # interpretation objects and classes
     d1, d2 = DispatchedInterpretation("iso1"), DispatchedInterpretation("iso2")
     d1.register(funsor.terms.Unary, funsor.ops.NegOp, Variable)(lambda op, a: "d1")
@@ -867,7 +895,7 @@ def userland_dispatch(payload):
     the rule must be a function of the argument types alone."""
     from sim.iso import fork_call
 
-    res = fork_call(_userland_session, (payload,), timeout=240)
+    res = fork_call(_userland_session, (payload,), timeout=850)
     if res.get("status") != "ok":
         raise RuntimeError("userland session failed: %s" % (res.get("err") or res))
     return res["res"]
@@ -1267,7 +1295,7 @@ def instance_checks(payload):
     generalisation of it (weaken one parameter)."""
     from sim.iso import fork_call
 
-    res = fork_call(_instance_session, (payload,), timeout=300)
+    res = fork_call(_instance_session, (payload,), timeout=1100)
     if res.get("status") != "ok":
         raise RuntimeError("instance session failed: %s" % (res.get("err") or res))
     return res["res"]
